@@ -747,6 +747,8 @@ fn feature_matrix(rep: &Report) {
         s.meta("built", json!(built));
         s.meta("distinct_digests_per_base", json!(digests.iter().collect::<Vec<_>>()));
         s.meta("toolchain", v["toolchain"].clone());
+        s.meta("harness_az_build", v["harness_az_build"].clone());
+        s.meta("az_cast_section_compiled_in", json!(cfg!(feature = "az")));
         s.meta("matrix_wall_s", v["wall_s"].clone());
         s.meta("feature_universe", v["feature_universe"].clone());
     });
